@@ -405,3 +405,58 @@ class Trip:
 
     def __iter__(self):
         raise ValueError("verif: Trip.__iter__ called")
+
+
+# ---- legal components WITHOUT a docstring (cls.__doc__ is None) ------------------------------------------------------
+
+class VNoDocSrc(DataSource):
+    @classmethod
+    def _get_data(cls, value: float = 1.0) -> FloatDataType:
+        return FloatDataType(float(value))
+
+    @classmethod
+    def output_data_type(cls):
+        return FloatDataType
+
+
+class VNoDocOp(_FloatOp):
+    @classmethod
+    def context_keys(cls):
+        return ["nd"]
+
+    def _process_logic(self, data, factor: float = 2.0):
+        self._notify_context_update("nd", data.data)
+        return FloatDataType(data.data * factor)
+
+
+class VNoDocProbe(_FloatProbe):
+    def _process_logic(self, data):
+        return data.data
+
+
+class VNoDocSink(DataSink[FloatDataType]):
+    @classmethod
+    def _send_data(cls, data: FloatDataType):
+        return None
+
+    @classmethod
+    def input_data_type(cls):
+        return FloatDataType
+
+
+class VNoDocPaySrc(PayloadSource):
+    @classmethod
+    def _get_payload(cls) -> Payload:
+        return Payload(FloatDataType(1.0), ContextType({"nb": 1.0}))
+
+    @classmethod
+    def output_data_type(cls):
+        return FloatDataType
+
+    @classmethod
+    def _injected_context_keys(cls):
+        return ["nb"]
+
+
+for _c in (VNoDocSrc, VNoDocOp, VNoDocProbe, VNoDocSink, VNoDocPaySrc):
+    _c.__doc__ = None
